@@ -55,12 +55,12 @@ def valid_spline(w, sp, n):
     """Class invariants of C10 for a spline on a grid of n points (observed through the public API)."""
     v = spline_view(w, sp)
     if v is None:
-        return False, "accessors fail"
+        return False, "invalid: accessors fail"
     (s, e), table, ncoef, sup = v
     if not ((s == 0 and e == 0) or (s < e <= n)):
-        return False, "support window (%d,%d) outside grid of %d points" % (s, e, n)
+        return False, "invalid: support window (%d,%d) outside grid of %d points" % (s, e, n)
     if ncoef != max(e - s, 1) - 1:
-        return False, "%d coefficient arrays for %d intervals" % (ncoef, max(e - s, 1) - 1)
+        return False, "invalid: %d coefficient arrays for %d intervals" % (ncoef, max(e - s, 1) - 1)
     return True, ""
 
 
